@@ -301,6 +301,9 @@ func genRPC(c *Chooser, o ScenOpts) *RPCPlan {
 		}
 	}
 	cp.Headers = genHeaderSet(c, c.Intn(3))
+	if c.Prob(0.3) {
+		cp.Spelling = Pick(c, 1, 2, 3, 4, 5) // legal spellings of the same request (charset parameter, list separators, repeated header lines)
+	}
 	if form == FormConnectGet && c.Prob(0.3) {
 		// a GET may name the protocol version in a header as well as (or instead of, see C19) in the query
 		cp.ExtraHdrs = append(cp.ExtraHdrs, [2]string{"Connect-Protocol-Version", "1"})
@@ -373,6 +376,7 @@ func genRPC(c *Chooser, o ScenOpts) *RPCPlan {
 	rp.TrailerStyle = Pick(c, "announce", "prefix")
 	rp.StrayHTTPTrailer = len(rp.Trailers) > 0 && c.Prob(0.15)
 	rp.CompressErrBody = c.Prob(0.3)
+	rp.CTCharset = c.Prob(0.2)
 	rp.EarlyTrailers = c.Prob(0.25)
 	if rp.TrailerStyle == "announce" && c.Prob(0.4) {
 		rp.AnnounceCase = Pick(c, "lower", "upper", "given", "lines")
